@@ -987,6 +987,39 @@ func c15TemporalProto(r *core.Rec, kind, text, class string) {
 	default:
 		return
 	}
+	// an element's zone may be spelled '', 'UTC' or 'Z' where the text says +00:00 / Z (hand-built protos): the renderers
+	// agree with jsonformat on each spelling (only the rendering is compared; the parse of the rendering has its own zone text)
+	if kind == "DateTime" && ref.Prec == 6 && ref.HasOff && len(ref.Frac) <= 6 && (ref.OffText == "Z" || ref.OffText == "+00:00") {
+		for _, zone := range []string{"", "UTC", "Z", "+00:00"} {
+			dt := proto.Clone(lib.ProtoDateTime(text)).(*dtpb.DateTime)
+			dt.Timezone = zone
+			in := proto.Clone(lib.ProtoInstant(text)).(*dtpb.Instant)
+			in.Timezone = zone
+			for _, m := range []proto.Message{dt, in} {
+				js, err := lib.PrimitiveJSON(m)
+				if err != nil {
+					continue
+				}
+				var got string
+				pi := core.Try(func() {
+					switch x := m.(type) {
+					case *dtpb.DateTime:
+						got = fhirconv.DateTimeToString(x)
+					case *dtpb.Instant:
+						got = fhirconv.InstantToString(x)
+					}
+				})
+				r.Eval()
+				r.State("proto|zone-spelling|" + zone)
+				name := string(m.ProtoReflect().Descriptor().Name())
+				if pi != nil {
+					r.Fail("fhir-helpers|"+name+"|zone-spelling|"+pi.Key(), core.W{"text": text, "zone": zone})
+				} else if got != fmt.Sprint(js) {
+					r.Fail("fhirconv.ToString|"+name+"|zone-spelling="+zone+"|differs-from-jsonformat", core.W{"text": text, "zone": zone, "fhirconv": got, "jsonformat": fmt.Sprint(js)})
+				}
+			}
+		}
+	}
 	for _, c := range cands {
 		r.State("proto|" + c.name + "|" + class)
 		r.Nontrivial(c.name, text)
